@@ -297,7 +297,7 @@ fn run_roundtrip_shamir(cx: &mut CaseCx, _case: &Value) {
   use ff::PrimeField;
   let vals = ["0", "1", "18446744073709551615", "18446744073709551616", "340282366920938463463374607431768211455", "340282366920938463463374607431768211456", "340282366920938463463374607431768223906"];
   for (i, x) in vals.iter().enumerate() {
-    for k in 0..4usize {
+    for k in (0..=12usize).chain([15, 16, 17, 20, 31, 32, 33]) {
       let xb: num_bigint::BigUint = x.parse().unwrap();
       let ys: Vec<num_bigint::BigUint> = (0..k).map(|j| vals[(i + j + 1) % vals.len()].parse().unwrap()).collect();
       let share = star_sharks::Share { x: fp_from_big(&xb).unwrap(), y: ys.iter().map(|y| fp_from_big(y).unwrap()).collect() };
@@ -372,7 +372,7 @@ pub fn spec() -> PropSpec {
         run: run_roundtrip_adss,
         min_counts: &[("evaluations", 90)],
       },
-      Check { name: "roundtrip-shamir", rule: "Shamir shares with 0..3 y over extreme element values: layout and round trip", gen: |_| vec![json!({})], run: run_roundtrip_shamir, min_counts: &[("evaluations", 20)] },
+      Check { name: "roundtrip-shamir", rule: "Shamir shares with 0..12, 15..17, 20, 31..33 y over extreme element values: layout and round trip", gen: |_| vec![json!({})], run: run_roundtrip_shamir, min_counts: &[("evaluations", 20)] },
       Check {
         name: "single-faults",
         rule: "13 annotated base encodings (Shamir share with 0,1,2 y and a partial element; 4 adss shares; 3 reports; chunk; u32) x {every prefix, every length/threshold field x 21 boundary values, every 24-byte element replaced by p-1,p,p+1,2^192-1,0, every offset x 5 byte faults, garbage of 1/23/24/48 bytes appended and inserted at the end of every nested chunk with adjusted and stale lengths}; every input through all 7 decoders: accept <=> reference accepts, re-encoding == canonical form; distinct = inputs",
